@@ -166,6 +166,9 @@ def check_cli(chk, MX, tmp):
     for it in range(chk.q(3, 16)):
         sd, acs = gen_case(rng, None, two=False)
         name, ac, st, cs = acs[0]
+        if it == 0:
+            ac = gen.simple_wing_aircraft(N=4, reid=False)       # has an elevator: the trim below changes what the exports show
+            acs[0] = (name, ac, st, cs)
         d = os.path.join(tmp, "cli%d" % it)
         rel = rng.choice(["in.json", "case.json.d/in.json", "a.b/run_1.json", "x.json"])
         os.makedirs(os.path.dirname(os.path.join(d, rel)) or d, exist_ok=True)
@@ -183,6 +186,10 @@ def check_cli(chk, MX, tmp):
                 given = "given_%s%s" % (m_, ext)
                 kw["filename"] = given
             run.append((m_, kw, given))
+        if it == 0:
+            # commands run in the order given: an analysis that changes the state, then exports (which draw the deflected controls), then analyses
+            run = [("pitch_trim", {"set_trim_state": True}, None), ("export_stl", {"section_resolution": 8}, None), ("solve_forces", {}, None),
+                   ("export_vtk", {"section_resolution": 8}, None), ("distributions", {}, None)]
         for bogus in rng.sample(["bogus_command", "solve_force", "Derivatives", "_solve_linear_", "trim"], rng.randint(1, 2)):
             run.insert(rng.randint(0, len(run)), (bogus, {"x": 1}, None))
         inp = copy.deepcopy(sd)
@@ -303,6 +310,13 @@ def check_no_mutation(chk, MX, tmp):
         sd, acs = gen_case(rng, chk.hist, two=False)
         name, ac, st, cs = acs[0]
         style = rng.choice(["scene-dict", "add_aircraft"])
+        if it % 3 == 1:
+            # a state whose entries are the caller's own NumPy arrays (an un-normalised attitude quaternion among them)
+            style = "add_aircraft"
+            st = {"position": np.array([10.0, -20.0, -300.0]), "velocity": np.array([st["velocity"], 2.0, 3.0]),
+                  "orientation": np.array([1.998, 0.0, 0.0872, 0.0]), "angular_rates": np.array([0.02, -0.01, 0.03])}
+            acs[0] = (name, ac, st, cs)
+            chk.count("no-mutation:array-state")
         if style == "scene-dict":
             sd.setdefault("scene", {})["aircraft"] = {name: {"file": ac, "state": st, "control_state": cs}}
         if it % 2 == 0:
@@ -439,6 +453,52 @@ def check_scene_stl(chk, MX, tmp, n):
         if dev > 1e-4 * (1.0 + float(np.max(np.abs(exp)))):
             chk.violation("stl:scene-placement", dict(rep, what="aircraft surfaces in the scene STL are not the body-fixed surfaces placed at position / attitude",
                                                       max_vertex_distance=dev))
+
+
+def check_outline_blend(chk, MX, tmp):
+    """a wing whose airfoil changes along the span is exported with the root airfoil at the root and the tip airfoil at the tip, linearly
+    blended in between - compared with the exports of the two constant-airfoil wings of the same planform (STL and VTK)"""
+    from stl import mesh
+    rng = chk.rng
+
+    def lin(naca):
+        return {"type": "linear", "aL0": 0.0, "CLa": 6.2, "CmL0": 0.0, "Cma": 0.0, "CD0": 0.006, "CD1": 0.0, "CD2": 0.01, "geometry": {"NACA": naca}}
+
+    for it in range(chk.q(1, 4)):
+        side = ("both", "right", "left", "both")[it % 4]
+        b, R = round(rng.uniform(2.0, 5.0), 2), rng.choice([6, 9, 12])
+        stations = [0.0, 1.0] if it % 2 == 0 else [0.0, round(rng.uniform(0.3, 0.7), 2), 1.0]
+
+        def aircraft(afl):
+            return {"CG": [0, 0, 0], "weight": 10.0, "airfoils": {"thick": lin("0018"), "thin": lin("2408")},
+                    "reference": {"area": 8.0, "longitudinal_length": 1.0, "lateral_length": 8.0},
+                    "wings": {"w": {"ID": 1, "side": side, "is_main": True, "semispan": b, "chord": 1.0, "airfoil": afl,
+                                    "grid": {"N": 4, "reid_corrections": False}}}}
+        names = ["thick", "thin", "thick"][:len(stations)] if len(stations) == 3 else ["thick", "thin"]
+        blend_afl = [[s_, n_] for s_, n_ in zip(stations, names)]
+        pts = {}
+        try:
+            for tag, afl in (("blend", blend_afl), ("root", names[0]), ("tip", names[-1])):
+                sc = gen.build_scene(MX, {"scene": {"atmosphere": {"rho": 0.0023769}}}, [("a", aircraft(afl), {"velocity": 50.0}, {})])
+                fn = os.path.join(tmp, "ob%d_%s.stl" % (it, tag))
+                sc.export_stl(filename=fn, section_resolution=R)
+                pts[tag] = mesh.Mesh.from_file(fn).vectors.reshape(-1, 3).astype(float)
+        except Exception as e:
+            chk.count("outline-blend-error=" + type(e).__name__)
+            continue
+        chk.case(dict(kind="outline-blend", side=side, stations=stations, it=it), nontrivial=True)
+
+        def section(v, y):
+            return v[np.abs(np.abs(v[:, 1]) - y) < 1e-6][:, [0, 2]]
+
+        def far(a_, b_):
+            return max(float(np.min(np.linalg.norm(b_ - p_, axis=1))) for p_ in a_) if len(a_) and len(b_) else float("inf")
+        for where, y, ref in (("root", 0.0, "root"), ("tip", b, "tip")):
+            A, B = section(pts["blend"], y), section(pts[ref], y)
+            dist_ = max(far(A, B), far(B, A))
+            if not dist_ < 1e-5:
+                chk.violation("export:outline-blend:" + where, dict(kind="outline-blend", side=side, airfoil=blend_afl, semispan=b, section_resolution=R,
+                                                                   what="the exported %s section is not the %s airfoil's outline (distance %.3g)" % (where, names[0 if where == "root" else -1], dist_)))
 
 
 def check_exports(chk, MX, tmp):
@@ -588,6 +648,7 @@ def run(chk):
         check_cli(chk, MX, tmp)
         check_no_mutation(chk, MX, tmp)
         check_exports(chk, MX, tmp)
+        check_outline_blend(chk, MX, tmp)
         check_scene_stl(chk, MX, tmp, chk.q(2, 12))
     finally:
         shutil.rmtree(tmp, ignore_errors=True)
